@@ -22,7 +22,7 @@ RULE = ("A case is 2-3 fake nodes (optionally one IGNORED by the load-balancing 
         "next k connection attempts, the control node pushes STATUS_CHANGE UP/DOWN or TOPOLOGY_CHANGE NEW_NODE/REMOVED_NODE "
         "(with or without the system tables agreeing), a node leaves / rejoins the topology, the node list is refreshed, a "
         "request is executed, the virtual clock advances by 0.05-3 s; a schedule tape picks the runnable virtual thread at "
-        "every choice point (a 'tape' event re-arms it mid-history).  An enumerated part plays 'UP announced while the host is "
+        "every choice point (a 'tape' event re-arms it mid-history); connection attempts after the initial connect take 0 or 0.3 s; the peer's closes are resets or orderly closes (EOF).  An enumerated part plays 'UP announced while the host is "
         "still unreachable' with 1-2 sessions under every schedule tape over {0,1,2} of length <= 4 (thorough: 6).  At the end every node is made reachable and 6 s pass.  Non-trivial: some host went down, "
         "failed at least one reconnection attempt and came back up, or a host was removed while it had a reconnector.  "
         "Distinct by case digest.")
@@ -35,7 +35,7 @@ ASSUMPTIONS = ["network, clock, executor and event loop are simulated (sim/); Cl
                "default profile's policy into them, so one policy object is notified four times per transition)",
                "invariants are evaluated at quiescent points (no runnable virtual thread at the current virtual time); "
                "pool presence is evaluated right after connect and at the end (all nodes reachable for 6 s), and whenever listeners are told a host is up",
-               "connection attempts take no virtual time (connect races are C45's subject), except 0.05 s when the reconnection "
+               "connection attempts after the initial connect take 0 s or 0.3 s (generated); 0.05 s when the reconnection "
                "delay is 0 (and then the policy keeps down hosts in its plans, so that a control connection without live hosts "
                "spends connect time instead of spinning)",
                "Cluster.sessions (a WeakSet iterated in memory-address order) is replaced by an insertion-ordered set and executor futures hash by creation number "
@@ -89,6 +89,8 @@ def s_case(gran):
         "sessions": st.sampled_from([1, 1, 2]),
         "ignored": st.sampled_from([None, None, None, 1, 2]),
         "rdelay": st.sampled_from([1.0, 1.0, 1.0, 0.0, 0.5]),
+        "cdelay": st.sampled_from([0.0, 0.0, 0.3]),
+        "orderly": st.booleans(),
         "events": events,
         "tape": st.lists(st.integers(0, 3), max_size=40 if gran == "locks" else 10),
         "gran": st.just(gran),
@@ -110,6 +112,27 @@ def enum_cases(chunk):
                    "rdelay": 1.0 if len(tape) % 2 == 0 else 0.0,
                    "events": [["node_down", 0, True], ["advance", 0.3], ["tape", list(tape)], ["status", "UP", 0],
                               ["advance", 0.15], ["advance", 1.0], ["node_up", 0], ["advance", 1.5]]}
+
+
+def enum_removed_chunks(tier):
+    return [{"addition": a} for a in (False, True)]
+
+
+def enum_removed_cases(chunk):
+    """a connection attempt takes 0.3 s; the host (down with an ordinary reconnector, or never successfully added and
+    reconnecting with is_host_addition) leaves the ring at every 0.1 s step around the start of an attempt, the
+    node being reachable again: at some steps the removal lands while the attempt is connecting"""
+    for rdelay in (1.0, 0.5):
+        for k in range(2, 24):
+            wait = round(0.1 * k, 1)
+            if chunk["addition"]:
+                ev = [["leave", 1, True], ["advance", 0.15], ["node_down", 1, False], ["join", 1, True], ["advance", 0.5],
+                      ["node_up", 1], ["advance", wait], ["leave", 1, True], ["advance", 0.15], ["advance", 1.0]]
+            else:
+                ev = [["node_down", 1, True], ["node_up", 1], ["advance", wait], ["leave", 1, True], ["advance", 0.15],
+                      ["advance", 1.0]]
+            yield {"hosts": 2, "sessions": 1, "ignored": None, "gran": "blocking", "tape": [], "rdelay": rdelay,
+                   "cdelay": 0.3, "orderly": False, "events": ev}
 
 
 def interpret(case, ctx):
@@ -165,6 +188,8 @@ def _run(case, ctx, sim):
     prof = ExecutionProfile(load_balancing_policy=policy, request_timeout=2.0)
 
     handlers = []
+    connecting = []                # handlers whose attempt is inside the connection factory right now
+    orderly = bool(case.get("orderly"))
     seq = itertools.count(1)       # global order of reconnection attempts and removals
     removed_seq = {}               # id(Host) -> sequence number at which Cluster.on_remove(host) returned
 
@@ -181,11 +206,14 @@ def _run(case, ctx, sim):
 
         def try_reconnect(self):
             self.rec_attempts.append((world.now, next(seq)))
+            connecting.append(self)
             try:
                 return Orig.try_reconnect(self)
             except Exception:
                 self.rec_failed += 1
                 raise
+            finally:
+                connecting.remove(self)
 
         def on_reconnection(self, connection):
             self.rec_succeeded = True
@@ -218,7 +246,7 @@ def _run(case, ctx, sim):
     def on_down_body(self, host, is_host_addition, expect_host_to_be_down=False, _orig=C.Cluster.on_down.__wrapped__):
         cur = world.current
         k = cur.id if cur is not None else 0
-        expecting[k] = (expect_host_to_be_down, host.is_currently_reconnecting())     # as seen on entry
+        expecting[k] = (expect_host_to_be_down, host.is_currently_reconnecting(), is_host_addition)     # as seen on entry
         try:
             return _orig(self, host, is_host_addition, expect_host_to_be_down)
         finally:
@@ -241,8 +269,8 @@ def _run(case, ctx, sim):
     class PoolWatcher(S.recording_listener([]).__class__):
         def _put(self, kind, host):
             cur = world.current
-            exp = expecting.get(cur.id if cur is not None else 0, (False, False))
-            notes.append((kind, host, bool(host._currently_handling_node_up), bool(exp[0]), bool(exp[1])))
+            exp = expecting.get(cur.id if cur is not None else 0, (False, False, False))
+            notes.append((kind, host, bool(host._currently_handling_node_up), bool(exp[0]), bool(exp[1]), bool(exp[2])))
             if kind in ("up", "add") and policy.distance(host) != HostDistance.IGNORED:
                 for si, s in enumerate(tuple(cluster.sessions)):
                     pool = s._pools.get(host)
@@ -256,7 +284,9 @@ def _run(case, ctx, sim):
     if ctx._failures:
         return
     sim.settle()
-    if not case.get("rdelay", 1.0):
+    for a in addrs:
+        net.nodes[a].connect_delay = case.get("cdelay", 0.0)
+    if not case.get("rdelay", 1.0) and not case.get("cdelay", 0.0):
         # with a zero reconnection delay a refused connect must take some virtual time, or the reconnection loop
         # (attempt, fail, re-schedule at once) would spin without the clock moving
         for a in addrs:
@@ -281,11 +311,15 @@ def _run(case, ctx, sim):
                              where, a, len(acts), [hd.rec_created - t0 for hd in acts]))
                 return False
             if h.is_up is True and acts and not h._currently_handling_node_up:
-                ctx.fail(["C25.reconnector", "active-after-up"],
+                ups = [rec[0] for rec in lis_log if rec[2] is h and rec[0] in ("up", "add")]
+                ctx.fail(["C25.reconnector", "active-after-up", "marked-up-by-on_" + (ups[-1] if ups else "none")],
                          "%s: host %s is marked up but still has a non-cancelled reconnection handler (created at +%.2f s, "
                          "%d attempts)" % (where, a, acts[0].rec_created - t0, len(acts[0].rec_attempts)))
                 return False
-            if h.is_up is False and not h._currently_handling_node_up and not acts:
+            # (a connection attempt to the host in progress = an on_add / on_up is still opening pools: judged later)
+            dialing = any(c.endpoint.address == a and not c.is_closed and not c.connected_event.is_set() for c in net.conns) \
+                or any(not t.done and t.name == "task:run_add_or_renew_pool" for ex in sim.executors for t in ex.tasks)
+            if h.is_up is False and not h._currently_handling_node_up and not acts and not dialing:
                 ever_up = any(rec[2] is h and rec[0] in ("up", "add") for rec in lis_log)
                 ctx.fail(["C25.reconnector", "none-active", "was-up-before" if ever_up else "never-marked-up"],
                          "%s: host %s is marked down, nobody is handling an up event for it, and it has no active "
@@ -297,7 +331,9 @@ def _run(case, ctx, sim):
                         continue
                     pool = s._pools.get(h)
                     if pool is None or pool.is_shutdown:
-                        ctx.fail(["C25.pools", "missing" if pool is None else "shut-down", "sessions=%d" % len(sessions)],
+                        readded = any(o is not h and o.endpoint == h.endpoint for o in removed_objs)
+                        ctx.fail(["C25.pools", "missing" if pool is None else "shut-down", "sessions=%d" % len(sessions)] +
+                                 (["host-was-removed-and-readded"] if readded else []),
                                  "%s: host %s is marked up and not ignored but session %d has %s for it" % (
                                      where, a, si, "no pool" if pool is None else "a shut-down pool"))
                         return False
@@ -345,6 +381,8 @@ def _run(case, ctx, sim):
                         if bad == "down-after-down" and mine[at][3]:
                             # the duplicate came from Cluster.on_down(expect_host_to_be_down=True)
                             key += ["expected-down", "while-reconnecting" if mine[at][4] else "no-reconnector"]
+                            if mine[at][5]:
+                                key.append("host-addition")     # from a failed pool of Cluster.on_add
                         elif bad != "down-after-down" and mine[at][2]:
                             key.append("during-on_up")      # delivered while Cluster.on_up was handling that host
                     if name == "policy" and bad == "up-after-remove" and seq[at + 1:at + 2] == ["down"]:
@@ -396,7 +434,7 @@ def _run(case, ctx, sim):
             s = sessions[ev[2] % len(sessions)]
             conns = [c for c in S.pool_connections(s, a) if not c.is_closed]
             for c in conns:
-                net.server_close(c)
+                net.server_close(c, eof=orderly)
             sim.settle()
             if conns:
                 run_query(ev[2], a)
@@ -406,7 +444,7 @@ def _run(case, ctx, sim):
             node.up = False
             for c in list(net.conns):
                 if c.node is node and not c.is_closed and not c.srv_closed:
-                    net.server_close(c)
+                    net.server_close(c, eof=orderly)
             sim.settle()
             if ev[2]:
                 for si in range(len(sessions)):
@@ -433,6 +471,9 @@ def _run(case, ctx, sim):
                 if kind == "leave":
                     net.removed.add(a)
                     h = S.host_for(cluster, a)
+                    if h is not None and any(hd.host is h for hd in connecting):
+                        ctx.label("cls:leaves-while-reconnection-attempt-is-connecting" +
+                                  (":addition" if any(hd.host is h and hd.is_host_addition for hd in connecting) else ""))
                     if h is not None and active_handlers(h):
                         nt["remove_with_reconnector"] = True
                 else:
@@ -511,6 +552,7 @@ def _run(case, ctx, sim):
 def parts(tier):
     return [
         EnumPart("premature-up", enum_chunks(tier), enum_cases, interpret),
+        EnumPart("removed-while-connecting", enum_removed_chunks(tier), enum_removed_cases, interpret),
         hyp_part("blocking", lambda: s_case("blocking"), interpret, tier, quick=300, thorough=1200,
                  quick_shards=6, thorough_shards=12),
         hyp_part("locks", lambda: s_case("locks"), interpret, tier, quick=120, thorough=400,
